@@ -4,12 +4,14 @@ go 1.23.1
 
 require (
 	github.com/hknutzen/Netspoc-Approve/go v0.0.0
+	github.com/hknutzen/testtxt v0.0.0-20240408182449-0168fe18ebfb
 	github.com/pkg/diff v0.0.0-20210226163009-20ebb0f2a09e
 )
 
 require (
 	golang.org/x/sys v0.30.0 // indirect
 	golang.org/x/term v0.29.0 // indirect
+	gopkg.in/yaml.v3 v3.0.1 // indirect
 )
 
 replace github.com/hknutzen/Netspoc-Approve/go => /repo/go
